@@ -796,9 +796,13 @@ class Interp:
                 raise Unsupported("loop over a list with unknown prefix is not of the form `for f in L: f(args)`")
             call = b[0].value
             args = tuple(self.eval(a, fr) for a in call.args)
-            if call.keywords:
-                raise Unsupported("keywords in summarised callback loop")
-            self.ctx.emit("foreach-call", itv.base.name, args)
+            if any(k.arg is None for k in call.keywords):
+                raise Unsupported("** in summarised callback loop")
+            kw = tuple(sorted((k.arg, self.eval(k.value, fr)) for k in call.keywords))
+            if kw:
+                self.ctx.emit("foreach-call", itv.base.name, args, kw)
+            else:
+                self.ctx.emit("foreach-call", itv.base.name, args)
             items = list(itv.items)
         else:
             items = self.iterate(itv)
@@ -1246,7 +1250,7 @@ class Interp:
                 r = Or(self.opaque_contains(container.base, x), r)
             return r
         if isinstance(container, SDict):
-            if container.base is not None:
+            if container.base is not None or (container.sym and is_intlike(x)):
                 return self.pdict_lookup(container, x) is not ABSENT
             if is_sym(x):
                 return Or([compare("==", x, k) for k in container.d if isinstance(k, int)])
@@ -1503,7 +1507,7 @@ class Interp:
         raise Unsupported("subscript of %r" % (type(o).__name__,))
 
     def dict_get(self, o, k, default, raise_missing):
-        if o.base is not None:
+        if o.base is not None or (o.sym and is_intlike(k)):
             r = self.pdict_lookup(o, k)
             if r is ABSENT:
                 if raise_missing:
@@ -1577,7 +1581,7 @@ class Interp:
             o.items[i] = v
             return
         if isinstance(o, SDict):
-            if o.base is not None:
+            if o.base is not None or (o.sym and is_intlike(k)):
                 self.pdict_store(o, k, v)
                 return
             if is_sym(k):
@@ -1586,7 +1590,8 @@ class Interp:
                     if self.ctx.branch(k.t == z3.BitVecVal(kk, W)):
                         o.d[kk] = v
                         return
-                raise Unsupported("store under new symbolic dict key")
+                self.pdict_store(o, k, v)
+                return
             if isinstance(k, SBytes):
                 k = k.to_native()
             o.d[k] = v
@@ -1624,7 +1629,7 @@ class Interp:
             del o.items[self.norm_index(k, len(o.items))]
             return
         if isinstance(o, SDict):
-            if o.base is not None:
+            if o.base is not None or (o.sym and is_intlike(k)):
                 if self.pdict_lookup(o, k) is ABSENT:
                     raise PyRaise(SObj(KeyError, {"args": (k,)}))
                 self.pdict_store(o, k, ABSENT)
@@ -1698,6 +1703,8 @@ class Interp:
         for kk, vv in o.d.items():
             if isinstance(kk, int) and truth(compare("==", k, kk)):
                 return vv
+        if o.base is None:
+            return ABSENT
         memo = self.ctx.__dict__.setdefault("_opaque", {})
         key = ("has", o.base, self.value_key(k))
         if key not in memo:
